@@ -104,6 +104,25 @@ def ensure(keydir, log=lambda s: None):
             else:
                 ent["roots"].append({"key": p, "pub": q})
         idx["ecc"][cname] = ent
+    # root keys whose X (resp. Y) coordinate has a leading zero byte (1 key in 256 each): minimal-length serialisation of a
+    # coordinate changes the hash of exactly these keys
+    for cname, curve in CURVES.items():
+        cl = 32 if cname == "p256" else 48
+        for coord in ("x", "y"):
+            name = f"ec{cname}_lz{coord}"
+            p, q = os.path.join(keydir, name + ".pem"), os.path.join(keydir, name + "_pub.pem")
+            if not (have(p) and have(q)):
+                log(f"  searching {name}")
+                while True:
+                    k = ec.generate_private_key(curve())
+                    pn = k.public_key().public_numbers()
+                    v = pn.x if coord == "x" else pn.y
+                    w = pn.y if coord == "x" else pn.x
+                    if v >> (8 * (cl - 1)) == 0 and w >> (8 * (cl - 1)) != 0:
+                        break
+                wr(p, _pem_priv(k))
+                wr(q, _pem_pub(k))
+            idx["ecc"][cname]["lz" + coord] = {"key": p, "pub": q}
     with open(os.path.join(keydir, "index.json"), "w") as f:
         json.dump(idx, f, indent=1)
     return idx
@@ -121,11 +140,17 @@ def rsa_case(idx, size, nroots, main, depth):
     return {"kind": "v1", "size": size, "roots": certs, "main": main, "chain": chain, "key": key, "depth": depth}
 
 
-def ecc_case(idx, curve, nroots, main, isk, isk_data_len=0):
-    """isk: None | 'p256' | 'p384' (curve of the image signing key certified by the root)."""
+def ecc_case(idx, curve, nroots, main, isk, isk_data_len=0, special=None):
+    """isk: None | 'p256' | 'p384' (curve of the image signing key certified by the root).
+    special = (position, 'lzx' | 'lzy'): the root at that position is a key with a leading-zero coordinate."""
     ent = idx["ecc"][curve]
-    c = {"kind": "v21", "curve": curve, "roots": [r["pub"] for r in ent["roots"][:nroots]], "main": main,
-         "root_key": ent["roots"][main]["key"], "isk": None, "isk_data_len": isk_data_len}
+    roots = [dict(r) for r in ent["roots"][:nroots]]
+    if special:
+        roots[special[0]] = dict(ent[special[1]])
+    c = {"kind": "v21", "curve": curve, "roots": [r["pub"] for r in roots], "main": main,
+         "root_key": roots[main]["key"], "isk": None, "isk_data_len": isk_data_len}
+    ent = dict(ent)
+    ent["roots"] = roots
     if isk:
         c["isk"] = isk
         c["isk_pub"] = idx["ecc"][isk]["isk"]["pub"]
